@@ -365,7 +365,7 @@ func c16BuildPlan(seed int64, tier string) *c16Plan {
 
 	// (d) two-step sequences: what DM.PUTENTRY / MOVEFRAGMENT stored is read back through every reader
 	seqID := 0
-	var putentry, getentry, delentry, scan, get, mf c16Spec
+	var putentry, getentry, delentry, scan, get, mf, lockSpec, delSpec c16Spec
 	for _, s := range specs {
 		switch s.Name {
 		case "dm.putentry":
@@ -378,25 +378,39 @@ func c16BuildPlan(seed int64, tier string) *c16Plan {
 			scan = s
 		case "dm.get":
 			get = s
+		case "dm.lock":
+			lockSpec = s
+		case "dm.del":
+			delSpec = s
 		case "internal.node.movefragment":
 			mf = s
 		}
 	}
 	for _, target := range []int{0, 1} {
-		for _, pl := range []string{"ent_valid", "ent_truncated", "ent_short", "ent_keylen_lie", "E"} {
+		for _, pl := range []string{"ent_valid", "ent_truncated", "ent_short", "ent_keylen_lie", "E", "ent_vallen_lie", "ent_vallen_lie+trailing", "ent_truncated+trailing"} {
 			for _, key := range []c16Tok{{B: "k1", Cls: "k"}, tokE} {
 				seqID++
 				d := c16Tok{B: fmt.Sprintf("c16-seq%d", seqID), Cls: "d"}
+				trailing := strings.HasSuffix(pl, "+trailing")
+				pl := strings.TrimSuffix(pl, "+trailing")
 				val := c16Tok{Cls: pl, Dyn: "payload:" + pl}
 				if pl == "E" {
 					val = tokE
+				}
+				if trailing {
+					// a further argument behind the entry: the parser ignores it, the entry decoder must not read into it
+					pl += "+trailing"
 				}
 				ctx := "after=dm.putentry[d," + key.Cls + "," + pl + "]"
 				seq := func(s c16Spec, toks ...c16Tok) {
 					add(c16Req{Phase: "seq", Cmd: s.label(), Name: s.Name, Toks: toks, Target: target, Ctx: ctx})
 				}
 				sameUnit = false
-				add(c16Req{Phase: "seq", Cmd: putentry.label(), Name: putentry.Name, Toks: []c16Tok{d, key, val}, Target: target})
+				ptoks := []c16Tok{d, key, val}
+				if trailing {
+					ptoks = append(ptoks, c16Tok{Cls: "big", Dyn: "payload:big_trailing"})
+				}
+				add(c16Req{Phase: "seq", Cmd: putentry.label(), Name: putentry.Name, Toks: ptoks, Target: target})
 				sameUnit = true
 				rc := c16Tok{B: "RC", Cls: "RC"}
 				seq(getentry, d, key, rc)
@@ -409,6 +423,24 @@ func c16BuildPlan(seed int64, tier string) *c16Plan {
 				seq(getentry, d, key, rc)
 				sameUnit = false
 			}
+		}
+		// a lock that is HELD (no timeout): every deadline that is zero, negative, tiny or not a number must be
+		// answered at once (lock not acquired / error), with and without a timeout option
+		{
+			seqID++
+			d := c16Tok{B: fmt.Sprintf("c16-held%d", seqID), Cls: "d"}
+			key := c16Tok{B: "lk", Cls: "k"}
+			sameUnit = false
+			add(c16Req{Phase: "seq", Cmd: lockSpec.label(), Name: lockSpec.Name, Toks: []c16Tok{d, key, lit("5")}, Target: target})
+			sameUnit = true
+			for _, num := range []c16Tok{lit("0"), lit("-1"), lit("0.0"), lit("-0"), lit("1e-12"), lit("0.05"), lit("NaN"), lit("abc"), tokE, lit("1e400"), lit("-1e400")} {
+				for _, opt := range [][]c16Tok{nil, {lit("PX"), lit("100")}, {lit("EX"), lit("0")}, {lit("ex"), lit("1")}} {
+					toks := append([]c16Tok{d, key, num}, opt...)
+					add(c16Req{Phase: "seq", Cmd: lockSpec.label(), Name: lockSpec.Name, Toks: toks, Target: target, Ctx: "held-lock"})
+				}
+			}
+			add(c16Req{Phase: "seq", Cmd: delSpec.label(), Name: delSpec.Name, Toks: []c16Tok{d, key}, Target: target, Ctx: "held-lock"})
+			sameUnit = false
 		}
 		for _, pl := range []string{"mf_valid", "mf_inner_bad_hkey", "mf_inner_bad_offset", "mf_inner_bad_index", "mf_inner_empty", "mf_inner_huge_allocated"} {
 			ctx := "after=internal.node.movefragment[" + pl + "]"
@@ -614,7 +646,7 @@ func c16Run(ctx *runCtx) int {
 		"distinct_nontrivial = distinct (command, subscribed?, shape) where shape replaces every argument by its class"
 	ctx.rep.Assumptions = []string{
 		"a request counts as unanswered only after 25 s (3 s once a wedge of the same command has been confirmed in this driver) during which every one of 7 (2) fresh control connections to the same member answered PING within 2 s and the driver saw no scheduling stall > 2 s; otherwise the case is re-run once and then recorded as inconclusive",
-		"DM.LOCK is preceded by DM.DEL of the same key so that the lock is free and the deadline argument is never legitimately waited on",
+		"DM.LOCK is preceded by DM.DEL of the same key so that the lock is free and the deadline argument is never legitimately waited on; the 'held-lock' sequences keep the lock held and only send deadlines of at most 50 ms (or unparsable ones)",
 		"raw streams that do not end on a command boundary are judged by process liveness, a fresh-connection PING and the busy-goroutine probe: after the client closed the connection no goroutine of redcon/olric may stay running/runnable in the same function over 4 snapshots in 1.5 s (also applied after every 200 requests)",
 		"UPDATEROUTING payloads with an empty owner list for a partition are sent too (they used to crash the member on the next request for that partition; verifyRoutingTable rejects them since fix 0ab7341)",
 	}
